@@ -287,6 +287,19 @@ func (ClawbackVestingAccount).ComputeClawback
     unfold T(s, final(capPeriods), 1)
     unfold Sum(final(capPeriods), 1)
 
+// C08: tracking a delegation adds exactly the delegated coins to DelegatedFree (and panics on insufficient funds)
+func (*ClawbackVestingAccount).TrackDelegation
+    modifies *va.BaseVestingAccount
+    requires base: va != nil && va.BaseVestingAccount != nil
+    requires funds: forall k int :: 0 <= k && k < coins_len(amount) ==> balance[coins_at(amount, k).Denom] >= coins_at(amount, k).Amount
+    ensures tracked: va.DelegatedFree == cadd(old(va.DelegatedFree), amount)
+    ensures frame: va.DelegatedVesting == old(va.DelegatedVesting) && va.OriginalVesting == old(va.OriginalVesting) && va.EndTime == old(va.EndTime)
+    loop 1 invariant idx: 0 <= #i && #i <= coins_len(amount)
+    loop 1 invariant sum: va.DelegatedFree == cadd(old(va.DelegatedFree), coins_prefix(amount, #i))
+    loop 1 invariant frame: va.DelegatedVesting == old(va.DelegatedVesting) && va.OriginalVesting == old(va.OriginalVesting)
+            && va.EndTime == old(va.EndTime) && va.BaseVestingAccount == old(va.BaseVestingAccount) && va.BaseVestingAccount != nil
+    loop 1 back use CoinsPrefixAbsent(amount, #i - 1, coins_at(amount, #i - 1).Denom)
+
 // C08: locked = max(original - unlockedVested - trackedDelegated, unvested), between 0 and original
 func (ClawbackVestingAccount).LockedCoins
     let t = time_unix(blockTime)
